@@ -36,7 +36,7 @@ def _nontrivial(ctx, d, kinds, order, alt):
 def _ders_cases(draw, tier):
     big = tier == "thorough"
     d = draw(gen.spline(kinds=("curve", "surface"), max_p=5 if big else 4, max_extra=6 if big else 4,
-                        unclamped="maybe", affine_range="maybe", normalize="maybe"))
+                        unclamped="maybe", affine_range="maybe", normalize="maybe", micro=True))
     pdim = len(d["degree"])
     if d["rational"] and pdim == 2 and max(d["degree"]) > 3 and not big:
         pass
